@@ -8,3 +8,10 @@ prop_config() {
     C10|C13|C16) INSTR="group rtpconn unbounded diskwriter token";;
   esac
 }
+
+# Extra binaries a check needs, built from the same scratch copy ($2 = scratch root).
+prop_extra_build() {
+  case "$1" in
+    C08) ( cd "$2/galene" && "$VGO" build -trimpath -o "$2/bin/galenectl" ./galenectl ) ;;
+  esac
+}
